@@ -14,7 +14,26 @@ from ._s import run_spec
 from .seqreplay import replay_history
 
 KINDS = ["str", "Path", "file@0", "file@1", "file@mid", "file@end", "bytesio@0", "bytesio@mid", "bytesio@end",
-         "buffered-bytesio@0", "buffered-bytesio@mid", "fdfile@mid"]
+         "buffered-bytesio@0", "buffered-bytesio@mid", "fdfile@mid",
+         # streams whose name points at a file of another length than what the stream yields
+         "pendingwrites@end", "gzip@0",
+         # a caller's stream whose read fails part-way: the store must not report success for a prefix
+         "failing-eio@0", "failing-eintr@0"]
+
+
+class _Failing(io.BytesIO):
+    """In-memory stream whose second read() raises."""
+
+    def __init__(self, data, exc):
+        super().__init__(data)
+        self._n = 0
+        self._exc = exc
+
+    def read(self, *a):
+        self._n += 1
+        if self._n == 2:
+            raise self._exc
+        return super().read(*a)
 
 
 def sizes():
@@ -52,15 +71,37 @@ def _case(args):
                 arg = stream = open(path, "rb")
             elif base == "fdfile":
                 arg = stream = open(os.open(path, os.O_RDONLY), "rb")
+            elif base == "pendingwrites":
+                wpath = path + ".w"
+                arg = stream = open(wpath, "w+b")
+                stream.write(data)  # still in the user-space buffer: the file on disk is shorter
+            elif base == "gzip":
+                import gzip
+                gpath = path + ".gz"
+                with gzip.open(gpath, "wb") as g:
+                    g.write(data)
+                arg = stream = gzip.open(gpath, "rb")  # .name is the (shorter or longer) compressed file
+            elif base == "failing-eio":
+                arg = stream = _Failing(data, OSError(5, "Input/output error (injected into the caller's stream)"))
+            elif base == "failing-eintr":
+                arg = stream = _Failing(data, InterruptedError(4, "Interrupted system call (injected)"))
             elif base == "bytesio":
                 arg = stream = io.BytesIO(data)
             else:
                 arg = stream = io.BufferedReader(io.BytesIO(data))
-            if stream is not None:
+            if stream is not None and base not in ("pendingwrites",):
                 stream.seek(pos)
+            if base == "pendingwrites":
+                pos = stream.tell()
             n += 1
+            failing = base.startswith("failing") and size > 0
             try:
-                md = store.store_object(pid, arg)
+                try:
+                    md = store.store_object(pid, arg)
+                except Exception:  # noqa: BLE001
+                    if failing:
+                        continue  # a failing source may only make the call fail
+                    raise
                 errs = []
                 if md.cid != hashlib.new(hl, data).hexdigest():
                     errs.append("cid is not the digest of the content")
